@@ -194,6 +194,51 @@ def with_default_bounds(rng, cases, p=0.06):
     return out
 
 
+def c16_literal_pairs(rng, count):
+    """-e X against -d X for an X without metacharacters: "everything else behaves as with a literal delimiter",
+    so the two must print the same under every option set (-p and -j need a replacement with -e: such sets carry one)"""
+    out = []
+    g = 7 * 10 ** 6
+    while len(out) < count:
+        g += 1
+        # X cannot overlap itself ("--" in "---" or "aa" in "aaa" is cut differently by construction: the literal
+        # trimmer works from the end, regex matches are leftmost)
+        x = rng.choice(["-", ",", "ab", "é", ";", "-,", "=>"])
+        argv = ["-f", rng.choice(["1", "2", "1:2", "2:", "-1", "2,1", ":2,4", "1:", "3=F", "-2:-1", "x{1}y{2:}", "1,2,3"])]
+        out_kind = rng.choice(["none", "r", "r", "rx", "json"])
+        if out_kind == "r": argv += ["-r", rng.choice(["/", "", "+-", "é"])]
+        if out_kind == "rx": argv += ["-r", rng.choice([x, x + x, "a" + x])]
+        if out_kind == "json" and "{" not in argv[1]: argv.append("--json")
+        has_r = out_kind in ("r", "rx") or "--json" in argv
+        for f_, pr in (("-g", 0.4), ("-s", 0.25), ("-m", 0.2), ("-z", 0.15)):
+            if rng.random() < pr: argv.append(f_)
+        # -p with -e rewrites the runs to R *before* cutting (the statement says so), which is the literal behaviour
+        # only for an R that is not empty and occurs nowhere in the data
+        if out_kind == "r" and argv[argv.index("-r") + 1] in ("/", "+-") and x not in ("-", "-,") and rng.random() < 0.6:
+            argv[argv.index("-r") + 1] = "/"
+            argv.append("-p")
+        if out_kind in ("r", "rx") and rng.random() < 0.3: argv.append("-j")
+        if rng.random() < 0.35: argv += ["-t", rng.choice("lrb")]
+        if rng.random() < 0.25: argv += ["--fallback-oob", rng.choice(["", "G"])]
+        eol = b"\0" if "-z" in argv else b"\n"
+        xb = x.encode()
+        parts = [b"a", b"b", b"", b"cd", xb[:1], "é".encode(), b" ", b"a" + xb[:1]]
+        recs = []
+        for _ in range(rng.randint(1, 3)):
+            k = rng.randint(0, 6)
+            rec = b""
+            for i in range(k):
+                rec += rng.choice(parts)
+                if i < k - 1: rec += xb * rng.choice([1, 1, 1, 2, 3])
+            if rng.random() < 0.2: rec = xb + rec
+            if rng.random() < 0.2: rec = rec + xb
+            recs.append(rec.replace(eol, b""))
+        data = eol.join(recs) + (eol if rng.random() < 0.7 else b"")
+        out.append(Case(["-d", x] + argv, data, tags={"grp": g, "role": "literal"}))
+        out.append(Case(["-e", x] + argv, data, tags={"grp": g, "role": "regex"}))
+    return out
+
+
 def regex_lattice(rng):
     """every subset of the options that meet on the regex path, times a few bounds shapes, on records
     with more fields than any bound names (empty fields and runs of matches included)"""
